@@ -95,6 +95,10 @@ def recipe_cases(chk):
             target = st['t']['c'] if 'c' in st['t'] else st['t']['p']
             for sd in rg.subs:
                 qs.append({'q': 'used', 's': sd['id'], 'stage': f"st{k}", 'unit': 'U' if sd['kind'] == 'Enzyme' else 'umol', 'dests': [target]})
+            # what was removed is an outflow of the target over that stage, not an inflow (and both over the whole recipe)
+            for stg in (f"st{k}", 'all'):
+                for u in ('uL', 'mg'):
+                    qs.append({'q': 'flows', 'n': target, 'stage': stg, 'unit': u})
         cases.append((rg, qs))
     return cases
 
@@ -104,6 +108,9 @@ def recipe_oracle(prog, rg, out, qres):
     fails, known = C09.oracle(prog, rg, out, qres)
     fails = ["recipe remove step: what usage tracking reports as discarded differs from what the step removed -- " + f for f in fails]
     # the baked objects against the same steps applied directly to the wells the generator addressed (however the operand was spelled)
+    from props import C15
+    f15, k15 = C15.oracle(prog, rg, out, qres)
+    fails += ["recipe remove step, flows of the target: " + f for f in f15]
     from props import C08
     f8, k8 = C08.oracle(prog, rg, out, qres)
     fails += ["recipe with remove steps: " + f for f in f8]
@@ -115,6 +122,8 @@ def recipe_nontrivial(prog, rg, out, qres):
     if out[0] != 'ok' or rg.failed is not None:
         return keys
     for q in prog['queries']:
+        if q['q'] != 'used':
+            continue
         k = int(q['stage'][2:])
         if rg.eager.trash[k].get(q['s']):
             st = prog['steps'][k]
